@@ -124,6 +124,12 @@ class SocketPort(BaseIOPort):
             raise OSError(err.args[1]) from err
 
     def _close(self):
+        # The file objects keep the connection open, so they must be
+        # closed as well or the other end will never see the disconnect.
+        for name in ('_rfile', '_wfile'):
+            file = getattr(self, name, None)
+            if file is not None:
+                file.close()
         self._socket.close()
 
 
